@@ -54,6 +54,8 @@ fn main() {
             let cases: u32 = arg(&args, "--cases").and_then(|s| s.parse().ok()).unwrap_or(if thorough { 8000 } else { 300 });
             let regs = arg(&args, "--regs").unwrap_or_else(|| "r6,r10,r8,r1,r0".into());
             let excl_arg = arg(&args, "--exclude").unwrap_or_default();
+            let mute = !args.iter().any(|a| a == "--no-mute");
+            vcore::crash::install(&format!("{out}.crash.json"));
             let excl = Exclusions {
                 extend_smaller_than_free: excl_arg.contains("extend_smaller_than_free"),
                 clear_with_shadow: excl_arg.contains("clear_with_shadow"),
@@ -73,6 +75,7 @@ fn main() {
                     cases_per_worker: ((cases as f64 * share.get(reg).copied().unwrap_or(0.2)).ceil() as u32).max(1),
                     excl: excl.clone(),
                     pool_digest: digest(reg).to_string(),
+                    mute,
                 };
                 let r = run_reg(reg, &cfg);
                 if let Some(f) = &r.failure {
